@@ -39,7 +39,7 @@ ASSUMPTIONS = [
 
 
 def examples(tier):
-    return 2400 if tier == "quick" else 32000
+    return 4800 if tier == "quick" else 48000
 
 
 def strings():
@@ -62,7 +62,8 @@ def den(M, e, leafs):
         return {xs: (w if xs == key else M.zero) for xs in S}
     if op == "from_string":
         t = tuple(e[1])
-        return {xs: (M.one if xs == t else M.zero) for xs in S}
+        w = M.parse(e[3]) if len(e) > 3 and e[3] is not None else M.one
+        return {xs: (w if xs == t else M.zero) for xs in S}
     if op == "from_strings":
         T = {tuple(x) for x in e[1]}
         return {xs: (M.one if xs in T else M.zero) for xs in S}
@@ -122,6 +123,8 @@ def build(M, K, e, leafs, cls, trace=None, twice=False, touch=False):
         if op == "lift":
             return lambda: K.lift(e[1], M.to_lib(M.parse(e[2])), R=R)
         if op == "from_string":
+            if len(e) > 3 and e[3] is not None:
+                return lambda: K.from_string("".join(e[1]) if e[2] == "str" else tuple(e[1]), R, M.to_lib(M.parse(e[3])))
             return lambda: K.from_string("".join(e[1]) if e[2] == "str" else tuple(e[1]), R)
         if op == "from_strings":
             return lambda: K.from_strings(["".join(x) if e[2] == "str" else tuple(x) for x in e[1]], R)
@@ -176,18 +179,27 @@ def expr(draw, M, regime, leafs, depth):
     if depth == 0 or draw(st.integers(0, 9)) < 2:
         kind = draw(st.sampled_from(["leaf", "leaf", "lift", "from_string", "from_strings", "zero", "one"]))
         if kind == "leaf":
-            leafs.append(draw(gen.automaton(regime=regime, max_states=3, max_arcs=5)))
+            big = draw(st.integers(0, 7)) == 0  # now and then a larger operand with many initial / final states
+            lf = draw(gen.automaton(regime=regime, max_states=6 if big else 3, max_arcs=8 if big else 5, min_states=5 if big else 1))
+            if big and regime != "BOOL":
+                for q in lf["states"]:
+                    if not any(repr(s[0]) == repr(q) for s in lf["start"]):
+                        lf["start"].append([q, "1/8"])
+                    if not any(repr(s[0]) == repr(q) for s in lf["stop"]):
+                        lf["stop"].append([q, "1/8"])
+            leafs.append(lf)
             return ["leaf", len(leafs) - 1]
         if kind == "lift":
             w = "1" if regime == "BOOL" else draw(st.sampled_from(["1/2", "1/3", "1", "2/3"]))
             return ["lift", draw(st.sampled_from(SIGMA + [""])), w]
         if kind == "from_string":
-            return ["from_string", draw(st.lists(st.sampled_from(SIGMA), max_size=3)), draw(st.sampled_from(["str", "tuple"]))]
+            w = None if (regime == "BOOL" or draw(st.booleans())) else draw(st.sampled_from(["1/2", "1/3", "2/3", "1/4"]))
+            return ["from_string", draw(st.lists(st.sampled_from(SIGMA), max_size=3)), draw(st.sampled_from(["str", "tuple"])), w]
         if kind == "from_strings":
             xs = draw(st.lists(st.lists(st.sampled_from(SIGMA), max_size=3), min_size=0, max_size=3, unique_by=tuple))
             return ["from_strings", xs, draw(st.sampled_from(["str", "tuple"]))]
         return [kind, ["lift", "a", "1"]]
-    op = draw(st.sampled_from(["+", "*", "*", "star", "star", "plus", "reverse", "rename", "renumber"]))
+    op = draw(st.sampled_from(["+", "*", "*", "star", "star", "plus", "plus", "reverse", "rename", "renumber"]))
     if op in ("+", "*"):
         return [op, draw(expr(M, regime, leafs, depth - 1)), draw(expr(M, regime, leafs, depth - 1))]
     sub = draw(expr(M, regime, leafs, depth - 1))
@@ -272,7 +284,7 @@ def check(case, ctx):
     # every automaton that served as an operand still denotes its own language afterwards
     # ((A+B)(x) = A(x)+B(x) is a statement about A and B as they are after the construction too)
     for sub_e, obj in trace[:-1]:
-        if sub_e[0] in ("lift", "zero", "one", "from_string"):
+        if sub_e[0] in ("lift", "zero", "one"):
             continue
         w = den(M, sub_e, leafs)
         r = ctx.call("read_operand", lambda: autoref.Weights(RA.from_lib(M, obj)))
